@@ -9,7 +9,7 @@ MUTATING = {"open_w", "mkdir", "unlink", "rmdir", "rename", "chmod", "symlink", 
 DIR_MODES = [0o755, 0o555, 0o666, 0o000, 0o311, 0o700,
              0o575, 0o655, 0o355, 0o477, 0o077, 0o070]      # owner has fewer rights than group / others
 FILE_MODES = [0o644, 0o600, 0o444, 0o000, 0o755]
-OPS = ["uncached", "cached-delete", "trait-recreate", "trait-migrate-recreate"]
+OPS = ["uncached", "cached-delete", "trait-recreate", "trait-migrate-recreate", "cached-invalid-delete", "trait-recreate-create-fails"]
 LINK_KINDS = ["in-file", "in-dir", "sib-file", "sib-dir", "canary-file", "canary-dir", "abs-canary-file", "abs-canary-dir", "dangling", "self", "mutual", "up", "layers-root",
               "hard-canary-file", "hard-sib-file"]      # hard links: a second name of an inode that lives outside the layer (mode/content changes would show there)
 TOP_KINDS = ["dir", "dir", "dir", "link-sibling-dir", "link-canary-dir", "link-canary-file", "link-dangling", "link-abs-canary-dir", "link-canary-empty-dir", "link-sibling-empty-dir"]
@@ -108,7 +108,7 @@ def make_case(r, root, op):
             os.symlink(os.path.basename(p), p + ".peer")
         kinds.add(kind)
     # the layer's own metadata file for the routes that need a readable layer
-    md = {"uncached": 'v = "1"', "cached-delete": 'v = "1"', "trait-recreate": 'v = "1"', "trait-migrate-recreate": 'other = "x"'}[op]
+    md = {"uncached": 'v = "1"', "cached-delete": 'v = "1"', "trait-recreate": 'v = "1"', "trait-migrate-recreate": 'other = "x"', "cached-invalid-delete": 'other = "x"', "trait-recreate-create-fails": 'v = "1"'}[op]
     if r.random() < 0.9 or op != "uncached":
         with open(os.path.join(layers, name + ".toml"), "w") as f:
             f.write("[types]\ncache = true\nlaunch = true\n\n[metadata]\n%s\n" % md)
@@ -131,8 +131,15 @@ def request_for(op, name):
         return {"op": "uncached", "name": name, "build": True, "launch": False}
     if op == "cached-delete":
         return {"op": "cached", "name": name, "build": True, "launch": True, "mtype": "generic", "restored": {"action": "delete", "cause": "c"}, "invalid": {"action": "delete", "cause": "i"}}
+    if op == "cached-invalid-delete":
+        # the restored metadata is not of the buildpack's type, and the buildpack answers "delete the layer"
+        return {"op": "cached", "name": name, "build": True, "launch": True, "mtype": "typed", "restored": {"action": "keep", "cause": "c"}, "invalid": {"action": "delete", "cause": "i"}}
     # the re-created layer gets content: anything written through a surviving link would land outside
     res = {"metadata_value": "new", "env": [["all", "override", "544f4f4c", "31"]], "exec_d": [], "sboms": [], "write_files": [["bin/tool", "2321"]], "delete_files": []}
+    if op == "trait-recreate-create-fails":
+        # the old layer is deleted, then the buildpack's create() fails: what was deleted stays deleted
+        return {"op": "handle", "name": name, "impl": "v1", "types": {"launch": True, "build": False, "cache": True}, "strategy": "recreate",
+                "migrate": {"action": "recreate", "metadata_value": "m"}, "create": {"err": "boom-create"}, "update": res}
     if op == "trait-recreate":
         return {"op": "handle", "name": name, "impl": "v1", "types": {"launch": True, "build": False, "cache": True}, "strategy": "recreate",
                 "migrate": {"action": "recreate", "metadata_value": "m"}, "create": res, "update": res}
@@ -210,6 +217,14 @@ def run_case(base, idx, seed, op, shim, sh):
                 sh.violation("old-entries-remain", "%s returned Ok but the layer still holds %r (is link: %s)" % (what, leftovers[:5], os.path.islink(ldir)), case)
                 return
             sh.count("ok_results")
+        elif op == "trait-recreate-create-fails" and "boom-create" in rep.get("detail", ""):
+            # create() ran - on the directory the delete step left - and failed: the old layer's entries are gone all the same
+            sh.count("create_failed_after_delete")
+            old = [fn for fn in os.listdir(layers) if fn.startswith(name + ".sbom.") or fn == name + ".toml"]
+            inside = sorted(os.listdir(ldir)) if os.path.isdir(ldir) and not os.path.islink(ldir) else ([] if not os.path.lexists(ldir) else ["<the old symlink>"])
+            if old or inside:
+                sh.violation("old-entries-remain-after-failed-create", "%s: the layer was deleted and create() then failed, but the old layer's %r and content %r are still there" % (what, old, inside[:5]), case)
+                return
         else:
             sh.count("err_results")
             sh.add("error_kinds", rep["detail"][:90] + " | top=" + info["top"])
@@ -253,12 +268,12 @@ def run(tier, seed, work):
         res.evaluations = 0
         return res
     ntrees = 2400 if tier == "quick" else 40000
-    ops = OPS[:2] + OPS[2:] if tier == "thorough" else OPS
+    ops = OPS
     items = []
     for i in range(ntrees):
-        chosen = ops if tier == "thorough" else [ops[i % 4], ops[(i + 1 + i // 4) % 4]]
+        chosen = ops if tier == "thorough" else [ops[i % len(ops)], ops[(i + 1 + i // len(ops)) % len(ops)]]
         for j, op in enumerate(chosen):
-            items.append((i * 4 + j, op))
+            items.append((i * 8 + j, op))
     for d in vp.pmap(shard_run, [(seed, s, work, shim) for s in vp.split(items, vp.NCPU)]):
         res.merge(d)
     res.rule = ("evaluations = delete/recreate operations on generated hostile layer trees, run as uid 65534 under the libc effect tracer. distinct_nontrivial = distinct "
